@@ -609,6 +609,75 @@ def run(ctx):
     ctx.ob("R-SIB", "C07.11", up11, "the prime-prior bounds are computed with inversion=True for exactly the parameters the map inverts", got11 == {want11}, f"inversion=`{src(inv_kw) if inv_kw is not None else None}` -> {sorted(map(sorted, got11)) if got11 else None}")
     ctx.floor("C07.11", 3)
 
+    # ---- C07.12 the bounds function computes the image of the prior box under the map it is told about -------------------
+    # determine_rescaled_bounds is enumerated over its ten (inversion, invert) configurations: the guards of every path
+    # are evaluated on the configuration (they only mention these two arguments), and the returned pair is compared, by
+    # computer algebra, with the documented image of [prior_min, prior_max]: the affine map onto rescale_bounds without
+    # inversion; with inversion the map onto [0, 1] followed by 2y - 1 (no edge), (y - 1, 1 - y) (upper), (-y, y) (lower),
+    # (-0.5, 1.5) (both).  RescaleToBounds forces rescale_bounds = [0, 1] for inverted parameters while _apply_inversion
+    # maps to [-1, 1] when no edge is found: a no-edge case that falls back to rescale_bounds halves the prime prior.
+    drb_f = ctx.fn("nessai.utils.rescaling:determine_rescaled_bounds")
+    from ..summ import summarise as _summ712
+
+    sp_ = sym.sp
+    S12 = sym.Sym(positive=False)
+    pmin, pmax, off_, xmin_, xmax_, rb0, rb1 = [S12.symbol(n_) for n_ in ("prior_min", "prior_max", "offset", "x_min", "x_max", "rescale_bounds[0]", "rescale_bounds[1]")]
+    L0 = (pmin - off_ - xmin_) / (xmax_ - xmin_)
+    U0 = (pmax - off_ - xmin_) / (xmax_ - xmin_)
+    subst12 = {"prior_min": pmin, "prior_max": pmax, "offset": off_, "x_min": xmin_, "x_max": xmax_, "rescale_bounds[0]": rb0, "rescale_bounds[1]": rb1}
+
+    def _want(inv_, edge_):
+        if not inv_:
+            return ((rb1 - rb0) * L0 + rb0, (rb1 - rb0) * U0 + rb0)
+        if edge_ in (None, False):
+            return (2 * L0 - 1, 2 * U0 - 1)
+        if edge_ == "upper":
+            return (L0 - 1, 1 - L0)
+        if edge_ == "lower":
+            return (-U0, U0)
+        return (sp_.Rational(-1, 2), sp_.Rational(3, 2))
+
+    def _holds12(test_, truth_, env_):
+        if canon(test_) in ("x_max == x_min", "x_min == x_max"):
+            return truth_ is False
+        try:
+            v_ = eval(compile(ast.fix_missing_locations(ast.Expression(body=_copy11.deepcopy(test_))), "<guard>", "eval"), {"__builtins__": {"bool": bool, "isinstance": isinstance, "str": str}}, dict(env_))
+        except Exception:
+            return None
+        return bool(v_) == truth_
+
+    try:
+        dpaths = [pa_ for pa_ in _summ712(drb_f.node, max_paths=400)]
+    except ValueError as e_:
+        raise AnalysisError(f"determine_rescaled_bounds: {e_} (ANALYSIS-INCOMPLETE)")
+    n_cfg = 0
+    for inv_ in (False, True):
+        for edge_ in (None, False, "upper", "lower", "both"):
+            env_ = {"inversion": inv_, "invert": edge_}
+            taken = []
+            undecided = False
+            for pa_ in dpaths:
+                hs_ = [_holds12(t_, tr_, env_) for t_, tr_ in pa_.guards]
+                if any(h_ is None for h_ in hs_):
+                    undecided = True
+                elif all(hs_):
+                    taken.append(pa_)
+            ok12, detail12 = False, ""
+            if undecided:
+                raise AnalysisError("determine_rescaled_bounds: a guard mentions something other than (inversion, invert): ANALYSIS-INCOMPLETE")
+            if len(taken) == 1 and taken[0].end == "return" and isinstance(taken[0].ret, ast.Tuple) and len(taken[0].ret.elts) == 2:
+                try:
+                    got_ = [sym.Sym(subst=subst12, positive=False).conv(e_) for e_ in taken[0].ret.elts]
+                    ok12 = all(sym.is_zero(g_ - w_) for g_, w_ in zip(got_, _want(inv_, edge_)))
+                    detail12 = f"returns ({', '.join(src(e_)[:60] for e_ in taken[0].ret.elts)})"
+                except AnalysisError as e_:
+                    detail12 = str(e_)[:120]
+            else:
+                detail12 = f"{len(taken)} path(s) taken, end {[pa_.end for pa_ in taken]}"
+            n_cfg += 1
+            ctx.ob("R-ALG", "C07.12", drb_f, f"determine_rescaled_bounds(inversion={inv_}, invert={edge_!r}) returns the image of the prior box under the map applied in that configuration", ok12, detail12)
+    ctx.floor("C07.12", 10)
+
     # ---- C07.10 evaluating a prior (or a bounds / likelihood wrapper) never changes the points it is given ---------------
     # Angle.x_prime_log_prior hands field views of the prime-space live points to the functions of nessai.priors; an
     # in-place store there rewrites the proposal's points (found: log_2d_cartesian_prior_sine clipped y in place)
@@ -677,6 +746,7 @@ _RS = "nessai/reparameterisations/rescale.py"
 _AN = "nessai/reparameterisations/angle.py"
 _GW = "nessai/gw/utils.py"
 MUTANTS = [
+    {"id": "no-edge-bounds-from-rescale-bounds", "file": "nessai/utils/rescaling.py", "old": "    elif not invert or invert is None:\n        return 2 * lower - 1, 2 * upper - 1\n", "new": "    elif not invert or invert is None:\n        return lower, upper\n", "expect": "returns the image of the prior box"},
     {"id": "augment-fields-not-carried-back", "file": "nessai/proposal/augmented.py", "old": "        self._base_inverse_rescale = self.inverse_rescale\n        self.inverse_rescale = self._augmented_inverse_rescale\n", "new": "", "expect": "also filled by the (effective) inverse_rescale"},
     {"id": "missing-inverse", "file": "nessai/gw/reparameterisations.py", "old": "    def inverse_reparameterise(self, x, x_prime, log_j, **kwargs):", "new": "    def _inverse(self, x, x_prime, log_j, **kwargs):", "expect": "DeltaPhaseReparameterisation.inverse_reparameterise is implemented"},
     {"id": "registry-bad-keyword", "file": "nessai/reparameterisations/__init__.py", "old": '"offset": (RescaleToBounds, {"offset": True}),', "new": '"offset": (RescaleToBounds, {"offsets": True}),', "expect": "registry entry 'offset'"},
